@@ -195,7 +195,7 @@ def origin(inst, operand, depth=8):
 
 
 def place_origin(inst, pl, depth=8):
-    fields = [e["n"] for e in pl.get("p", ()) if isinstance(e, dict) and "f" in e]
+    fields = [(e["n"] if "f" in e else "@" + e["n"]) for e in pl.get("p", ()) if isinstance(e, dict) and ("f" in e or "d" in e)]
     l = pl["l"]
     if 1 <= l <= inst["arg_count"]:
         return ("param", l, fields)
